@@ -43,6 +43,14 @@ static struct aws_allocator *A;
 static int g_sample; /* set by a section for one fixed index: print that case verbatim as evidence */
 static const char *show_in(const uint8_t *p, size_t n) { return v_show(p, n > 200 ? 200 : n); }
 
+/* in --replay mode every case prints its decoded input before the parser runs (so it is visible even if the parser dies) */
+static void replay_note(const char *parser, const uint8_t *p, size_t n, const char *extra) {
+    if (!v_replay_token) return;
+    char hex[600];
+    v_hex(hex, sizeof(hex), p, n > 256 ? 256 : n);
+    v_out("INFO case %s: parser=%s %s input (%zu bytes) text=%s hex=%s%s", v_replay_token, parser, extra, n, show_in(p, n), hex, n > 256 ? "..." : "");
+}
+
 /* ------------------------------------------------------------------ views ------------------------------- */
 static volatile unsigned touch_sink;
 static int view_inside(struct aws_byte_cursor c, const uint8_t *base, size_t n) {
@@ -152,6 +160,7 @@ static void xml_once(const uint8_t *p, size_t n, const uint8_t *show, unsigned p
     if (g_sample) v_sample("xml policy=%s doc=%s -> rc %d, %u nodes, %u attributes, %u bodies, depth %u", xp_name[pol], show_in(show, n), rc, x.nodes, x.attrs, x.bodies, x.maxseen);
 }
 static void run_xml(const uint8_t *bytes, size_t n, unsigned pol, size_t max_depth) {
+    replay_note("xml", bytes, n, xp_name[pol]);
     struct blk b = blk_new(bytes, n);
     xml_once(b.p, n, bytes, pol, max_depth);
     blk_free(&b);
@@ -294,6 +303,7 @@ static void json_once(const uint8_t *p, size_t n, const uint8_t *show) {
     aws_json_value_destroy(v);
 }
 static void run_json(const uint8_t *bytes, size_t n) {
+    replay_note("json", bytes, n, "");
     struct blk b = blk_new(bytes, n);
     json_once(b.p, n, bytes);
     blk_free(&b);
@@ -461,6 +471,7 @@ static void cbor_once(const uint8_t *p, size_t n, const uint8_t *show) {
     if (g_sample) v_sample("cbor %s -> %u successful calls, %u text/bytes views inside the input", show_in(show, n), st.ok_ops, st.views);
 }
 static void run_cbor(const uint8_t *bytes, size_t n) {
+    replay_note("cbor", bytes, n, "");
     struct blk b = blk_new(bytes, n);
     cbor_once(b.p, n, bytes);
     blk_free(&b);
@@ -644,6 +655,7 @@ static void uri_once(const uint8_t *p, size_t n, const uint8_t *show) {
     if (nontrivial) V_COUNT("nontrivial", 1);
 }
 static void run_uri(const uint8_t *bytes, size_t n) {
+    replay_note("uri", bytes, n, "");
     struct blk b = blk_new(bytes, n);
     uri_once(b.p, n, bytes);
     blk_free(&b);
@@ -732,6 +744,7 @@ static void date_once(const uint8_t *p, size_t n, const uint8_t *show) {
     if (g_sample) v_sample("date %s -> accepted by %u of the 8 (format selector x entry point) calls", show_in(show, n), accepted);
 }
 static void run_date(const uint8_t *bytes, size_t n) {
+    replay_note("date", bytes, n, "");
     struct blk b = blk_new(bytes, n);
     date_once(b.p, n, bytes);
     blk_free(&b);
@@ -850,6 +863,7 @@ static void host_once(const uint8_t *p, size_t n, const uint8_t *show) {
     if (nontrivial) V_COUNT("nontrivial", 1); /* accepted by at least one of the four recognisers */
 }
 static void run_host(const uint8_t *bytes, size_t n) {
+    replay_note("host", bytes, n, "");
     struct blk b = blk_new(bytes, n);
     host_once(b.p, n, bytes);
     blk_free(&b);
@@ -917,6 +931,7 @@ static void u64_once(const uint8_t *p, size_t n, const uint8_t *show) {
     if (ok) V_COUNT("nontrivial", 1); /* accepted in base 10 or base 16 */
 }
 static void run_u64(const uint8_t *bytes, size_t n) {
+    replay_note("u64", bytes, n, "");
     struct blk b = blk_new(bytes, n);
     u64_once(b.p, n, bytes);
     blk_free(&b);
@@ -994,6 +1009,7 @@ static void b64_once(const uint8_t *p, size_t n, const uint8_t *show) {
     }
 }
 static void run_b64(const uint8_t *bytes, size_t n) {
+    replay_note("b64", bytes, n, "");
     struct blk b = blk_new(bytes, n);
     b64_once(b.p, n, bytes);
     blk_free(&b);
@@ -1090,6 +1106,7 @@ static void hex_str_eval(uint64_t idx, void *ctx) {
     BEE_ITEM(idx);
     uint8_t s[8];
     size_t n = bee_string_at(idx, HEX_ALPHA, 16, hex_strlen_max(), s);
+    replay_note("hex", s, n, "");
     struct blk b = blk_new(s, n);
     hex_once(b.p, n, s);
     blk_free(&b);
@@ -1133,6 +1150,7 @@ static void utf8_str_eval(uint64_t idx, void *ctx) {
     BEE_ITEM(idx);
     uint8_t s[8];
     size_t n = bee_string_at(idx, U8_ALPHA, 21, utf8_strlen_max(), s);
+    replay_note("utf8", s, n, "");
     struct blk b = blk_new(s, n);
     utf8_once(b.p, n, s);
     blk_free(&b);
